@@ -11,7 +11,9 @@ git -C /repo worktree add --detach "$WT" HEAD >/dev/null 2>&1 || exit 2
 trap 'git -C /repo worktree remove --force "$WT" >/dev/null 2>&1; rm -rf "$WT"' EXIT
 OUT="$D/confirm.log"; : > "$OUT"
 # where do demo files go?
-DEMODIR=$(grep -oE '(internal|cmd)/[A-Za-z0-9_/.-]+' "$D/demo_cmd.txt" | grep -v '\.go$' | head -1)
+DEMODIR=$(grep -E '(go|\$GO)[" ]+test' "$D/demo_cmd.txt" | grep -oE '\./(internal|cmd)/[A-Za-z0-9_/-]+' | tail -1 | sed 's#^\./##')
+[ -z "$DEMODIR" ] && DEMODIR=$(grep -oE '(internal|cmd)/[A-Za-z0-9_/-]+' "$D/demo_cmd.txt" | grep -v 'sqlite0' | head -1)
+[ -f "$D/demo_dir.txt" ] && DEMODIR=$(cat "$D/demo_dir.txt")
 DEMODIR=${DEMO_DIR:-$DEMODIR}
 DEMODIR=${DEMODIR%/}
 echo "demo dir: $DEMODIR" | tee -a "$OUT"
@@ -33,8 +35,8 @@ C=0  # compilation of every package is covered by the suite run below ([build fa
 echo "== suite WITH patch" | tee -a "$OUT"
 $GO test -p 6 -vet=off -count=1 -timeout 25m ./... 2>&1 | grep -E '^(FAIL|---|panic|ok )' | grep -v '^ok ' > /tmp/suite-$$.txt
 # load-sensitive tests of the repo (fail on the unmodified tree too when the machine is busy) are reported, not compared
-grep -E 'TestRateLimit_|TestWeightedAcquire|TestCache2Parallel' /tmp/suite-$$.txt | sed 's/^/LOAD-SENSITIVE: /' | tee -a "$OUT"
-sed -E 's/ *\(?[0-9.]+s\)?$//' /tmp/suite-$$.txt | grep -vE 'TestRateLimit_|TestWeightedAcquire|TestCache2Parallel|^FAIL$|internal/chutil|internal/vkgo/semaphore' | sort -u > /tmp/suite-$$.s
+grep -E 'TestRateLimit_|TestWeightedAcquire|TestCache2Parallel|Test_Round_Robin_Simple_Queue_Random_Timeout_Race' /tmp/suite-$$.txt | sed 's/^/LOAD-SENSITIVE: /' | tee -a "$OUT"
+sed -E 's/ *\(?[0-9.]+s\)?$//' /tmp/suite-$$.txt | grep -vE 'TestRateLimit_|TestWeightedAcquire|TestCache2Parallel|Test_Round_Robin_Simple_Queue_Random_Timeout_Race|^FAIL$|internal/chutil|internal/vkgo/semaphore|internal/util/queue\s*$' | sort -u > /tmp/suite-$$.s
 cat /tmp/suite-$$.s >> "$OUT"
 if [ -f /verif/seeded/baseline_fail.txt ]; then
   if diff -q /tmp/suite-$$.s /verif/seeded/baseline_fail.txt >/dev/null; then S=0; else S=1; diff /tmp/suite-$$.s /verif/seeded/baseline_fail.txt | tee -a "$OUT"; fi
